@@ -140,6 +140,13 @@ type connMgr struct{ e *env }
 func (c connMgr) Connection(ctx context.Context, addr, dialer string) (*grpc.ClientConn, func(), error) {
 	// the address is the target name: one next hop per target
 	t := addr
+	// the dial is in flight: a Reconnect or Remove may land here; a dial
+	// honours its context (gnmi_collector dials blocking, with a time-out)
+	vrt.Yield()
+	if err := ctx.Err(); err != nil {
+		c.e.add(t, "dialaborted", -1, "")
+		return nil, func() {}, err
+	}
 	idx := c.e.nstream[t]
 	sess := c.e.sessionAt(t, idx)
 	if sess.refuse {
